@@ -1272,3 +1272,26 @@ func calleeHasSuffix(name, alts string) bool {
 	}
 	return false
 }
+
+// argOfType: the argument of call that has the given type — passed directly, or as a field of a
+// parameter struct built at (or before) the call site. nil when there is none or more than one.
+func (p *Prog) argOfType(f *Func, call *ast.CallExpr, typ string) ast.Expr {
+	var out []ast.Expr
+	for _, a := range call.Args {
+		if typeStr(p.TypeOf(a)) == typ {
+			out = append(out, a)
+			continue
+		}
+		if cl := p.LitOf(f, a); cl != nil {
+			for _, e := range cl.Elts {
+				if kv, ok := e.(*ast.KeyValueExpr); ok && typeStr(p.TypeOf(kv.Value)) == typ {
+					out = append(out, kv.Value)
+				}
+			}
+		}
+	}
+	if len(out) != 1 {
+		return nil
+	}
+	return out[0]
+}
